@@ -724,3 +724,114 @@ func GoTest(p Params, str bool) func(path []seqmc.Op) string {
 		return sb.String()
 	}
 }
+
+// DeepTree builds the sparsest AVL tree with `levels` levels (a Fibonacci tree: Fib(levels+2)-1 nodes, the
+// left subtree one level taller everywhere) by inserting its keys level by level, which needs no rotation,
+// and then keeps inserting and removing below its deepest leaf. It reaches descents of more than 32 / 40
+// steps, which no tree of fewer than several million nodes has. The shape is read off the pre-order of the
+// keys 1..n (in-order is the identity), the AVL condition is checked at every node after each phase.
+// It returns the number of nodes, the number of calls and the first failure.
+func DeepTree(levels int, trace func(any)) (nodes, calls int, fail string) {
+	size := make([]int, levels+1)
+	for h := 1; h <= levels; h++ {
+		size[h] = 1
+		if h >= 2 {
+			size[h] = size[h-1] + size[h-2] + 1
+		}
+	}
+	n := size[levels]
+	t := NewTree()
+	type sub struct{ lo, h int }
+	queue := make([]sub, 0, 1<<20)
+	queue = append(queue, sub{1, levels})
+	for len(queue) > 0 {
+		s := queue[0]
+		queue = queue[1:]
+		if s.h == 0 {
+			continue
+		}
+		root := s.lo + size[s.h-1]
+		t.Add(root)
+		calls++
+		queue = append(queue, sub{s.lo, s.h - 1})
+		if s.h >= 2 {
+			queue = append(queue, sub{root + 1, s.h - 2})
+		}
+	}
+	queue = nil
+	// keys below 1 are added later: the checker works on keys lo..hi
+	check := func(what string, lo, hi int) string {
+		if trace != nil {
+			trace(map[string]any{"family": "deep-tree", "levels": levels, "phase": what})
+		}
+		pre := t.SlicePreOrder()
+		if len(pre) != hi-lo+1 || t.Len() != len(pre) {
+			return fmt.Sprintf("%s: Len = %d, pre-order has %d keys, want %d", what, t.Len(), len(pre), hi-lo+1)
+		}
+		idx := 0
+		bad := ""
+		var build func(lo, hi int) int
+		build = func(lo, hi int) int {
+			if lo > hi || bad != "" {
+				return 0
+			}
+			if idx >= len(pre) || pre[idx] < lo || pre[idx] > hi {
+				bad = fmt.Sprintf("pre-order position %d does not fit a search tree over %d..%d", idx, lo, hi)
+				return 0
+			}
+			root := pre[idx]
+			idx++
+			hl := build(lo, root-1)
+			hr := build(root+1, hi)
+			if d := hl - hr; (d > 1 || d < -1) && bad == "" {
+				bad = fmt.Sprintf("balance violated at node %d: left height %d, right height %d", root, hl, hr)
+			}
+			if hl > hr {
+				return hl + 1
+			}
+			return hr + 1
+		}
+		height := build(lo, hi)
+		if bad == "" && height > depthBound(len(pre)) {
+			bad = fmt.Sprintf("depth %d exceeds 1.4405*log2(n+2) = %d for n=%d", height, depthBound(len(pre)), len(pre))
+		}
+		if bad != "" {
+			return fmt.Sprintf("%s (%d nodes, built with %d levels): %s", what, len(pre), levels, bad)
+		}
+		return ""
+	}
+	if m := check("after building the sparsest tree level by level", 1, n); m != "" {
+		return n, calls, m
+	}
+	lo := 1
+	for i := 0; i < 3; i++ { // below the deepest leaf
+		lo--
+		t.Add(lo)
+		calls++
+	}
+	if m := check("after 3 insertions below the deepest leaf", lo, n); m != "" {
+		return n, calls, m
+	}
+	for i := 0; i < 60; i++ {
+		lo--
+		t.Add(lo)
+		calls++
+	}
+	if m := check("after 63 insertions below the deepest leaf", lo, n); m != "" {
+		return n, calls, m
+	}
+	for i := 0; i < 40; i++ { // remove the smallest keys again (deep descents of Remove)
+		if !t.Remove(lo) || t.Contains(lo) {
+			return n, calls, fmt.Sprintf("Remove(%d) of the smallest key of a %d-level tree failed", lo, levels)
+		}
+		lo++
+		calls += 2
+	}
+	if m := check("after removing the 40 smallest keys", lo, n); m != "" {
+		return n, calls, m
+	}
+	if !t.Contains(n) || !t.Contains(lo) || t.Contains(n+1) {
+		return n, calls, "Contains on the extreme keys of the deep tree"
+	}
+	return n, calls, ""
+}
